@@ -27,6 +27,58 @@ Theorem C19_pipeline_spec : forall lower nfkc isspace lang fl d ls us,
 Proof. exact pipeline_spec_proof. Qed.
 Print Assumptions C19_pipeline_spec.
 
+(* Flatten::Apply, for every supported language and every string of Unicode scalar
+   values (BMP and supplementary planes), produces exactly the code-point level
+   specification [flatten_spec]: left to right; at a code point with an entry the listed
+   multi-character alternatives are tried in the listed order (with the right-boundary
+   condition where the table asks for it) before the single-character replacement;
+   every other code point is copied once.  U = UTF-16 encoding of a code point list.
+   Side conditions on the tables (start characters and rule suffixes are BMP, no
+   surrogates) are checked on the regenerated tables by vm_compute (languages_ok). *)
+Theorem C19_flatten_spec : forall isspace lang d cs fs,
+  flatten_for lang = Some d -> forallb is_scalar cs = true -> (length cs < fs)%nat ->
+  flatten_apply isspace d (utf16_of_cps cs) = Some (utf16_of_cps (flatten_spec isspace fs d cs)).
+Proof. exact flatten_spec_proof. Qed.
+Print Assumptions C19_flatten_spec.
+
+(* text that no rule targets passes through unchanged: every code point, including
+   those outside the BMP, is emitted exactly once *)
+Theorem C19_each_codepoint_once : forall isspace lang d cs,
+  flatten_for lang = Some d -> forallb is_scalar cs = true ->
+  (forall c, In c cs -> lookup d c = None) ->
+  flatten_apply isspace d (utf16_of_cps cs) = Some (utf16_of_cps cs).
+Proof. exact each_codepoint_once_proof. Qed.
+Print Assumptions C19_each_codepoint_once.
+
+(* The whole tool against the specification [line_spec] (lower, then the code-point
+   level flatten specification, then NFKC), for all flag sets, languages and sequences
+   of valid UTF-8 lines.  ICU enters through one premise: toLower maps well-formed
+   UTF-16 to well-formed UTF-16. *)
+Theorem C19_tool_spec : forall lower nfkc isspace,
+  (forall u, wf16 u -> wf16 (lower u)) ->
+  forall lang fl d ls us,
+  flatten_for lang = Some d ->
+  Forall2 (fun l u => from_utf8 l = Some u /\ bytes_okb l = true) ls us ->
+  no_delim 10 (concat ls) = true ->
+  process_unicode lower nfkc isspace lang fl (unrecords 10 ls)
+  = POk (unrecords 10 (map (fun u => to_utf8 (line_spec lower nfkc isspace d fl u)) us)).
+Proof. exact tool_spec_proof. Qed.
+Print Assumptions C19_tool_spec.
+
+(* non-vacuity of the flatten theorems: English, a supplementary character next to
+   triggers, a right-boundary rule that fires and one that does not *)
+Example C19_nonvacuous_flatten :
+  let isspace := fun c => c =? 32 in
+  let cs := [97; 128512; 8230; 39; 32; 115; 32; 39; 32; 115; 120; 96; 96; 119558] in
+  forallb is_scalar cs = true /\
+  (exists d, flatten_for [101; 110] = Some d /\
+     flatten_spec isspace 15 d cs = [97; 128512; 46; 46; 46; 39; 115; 32; 39; 32; 115; 120; 34; 119558] /\
+     lookup d 128512 = None /\ lookup d 97 = None).
+Proof.
+  split; [vm_compute; reflexivity|]. eexists. split; [vm_compute; reflexivity|].
+  vm_compute. repeat split; reflexivity.
+Qed.
+
 (* non-vacuity: three lines, only --flatten (the flag set for which every other line
    used to come out untransformed), English: all three lines are flattened *)
 Example C19_nonvacuous_pipeline :
